@@ -71,4 +71,36 @@ CHECKS = {
         "level_note": "Values are restricted to the gateway's domain (>= 1); ChroniclerV2 and sanctuary wildcards are excluded. Restart means settings.New on the same directory in one process.",
         "assumptions": ["'*' in the realm or swamp position matches any value and the sanctuary is literal", "specificity is the part-wise literal-over-wildcard partial order"],
     },
+    "C07": {
+        "pkg": "query", "run": "^TestC07", "level": "exploration",
+        "shards": {"quick": 1, "thorough": 16},
+        "technique": "stateful property-based testing (rapid) through the in-process gateway with a model-based ordered-page oracle (tie classes)",
+        "level_text": "Random single-swamp histories through the in-process gateway (Set/Increment/Patch/Delete/reload) with indexes built lazily mid-history. Every "
+                      "GetByIndex/GetByIndexStream page (all 15 index types, both orders, offsets, limits, time windows) is compared, as a sequence of tie classes, against a "
+                      "sorted/windowed/paged reference model. Three recorded incremental-maintenance defects are excluded from the main generator and kept as witness facets.",
+        "level_note": "Value type homogeneous per swamp (documented precondition); time windows only with time indexes; no typed zero values (C05 finding); one client, no concurrency.",
+        "assumptions": ["Limit 0 means all; window is [from, to)", "the server never stamps timestamps on Set"],
+    },
+    "C08": {
+        "pkg": "query", "run": "^TestC08", "level": "exploration",
+        "shards": {"quick": 1, "thorough": 16},
+        "technique": "differential/metamorphic property-based testing (route forcing via an OR{SubGroups:[G]} wrapper, checked with gateway.PlanFilter) plus an independent three-valued evaluator",
+        "level_text": "Random contents / filter-tree / request / mutation tuples: the same stream request is answered through the bucket route and the forced scan route and "
+                      "the two streams must be equal up to ties, including labels and treasures; both must match an independent evaluator of the documented canonical "
+                      "equality whenever the documents decide every record. Open route divergences are excluded from the main generator and kept as witness facets.",
+        "level_note": "The wrapper OR{SubGroups:[G]} is assumed semantically identical to G. Time-valued body fields and IS_EMPTY on non-msgpack bodies are left undecided by the evaluator; "
+                      "cases whose page cuts a tie class are skipped (~6%). GetByIndexStreamFromMany and value indexes are not covered.",
+        "assumptions": ["From/Limit are pre-filter index positions and MaxResults is post-filter (proto/docs)"],
+    },
+    "C17": {
+        "pkg": "conc", "run": "^TestC17", "level": "exploration", "overlay": "vsched", "tags": ["verifvsched"],
+        "shards": {"quick": 12, "thorough": 16},
+        "technique": "property-based schedule perturbation (rapid-drawn pause/sleep/yield plans at AST-instrumented synchronisation sites) with a deadlock-witness oracle (goroutine provably parked)",
+        "level_text": "Operation goroutines (BeginVigil..CeaseVigil) and waiters (WaitForActiveVigilsClosed) run on the real vigil while a generated plan delays goroutines at "
+                      "the instrumented lock/cond/atomic sites; once every operation has ended no further broadcast can happen, so a waiter still parked in sync.Cond.Wait is "
+                      "a lost wake-up. Detection is probabilistic (schedules are perturbed, not enumerated); a reported violation is real.",
+        "level_note": "Liveness is decided only as 'no generated schedule leaves a waiter provably parked'; the Go scheduler is not owned. Swamp/hydra-level waits (Destroy, "
+                      "WaitForGracefulClose, graceful stop) are exercised by the C16/C18 lifecycle harness, which reports hangs under those properties.",
+        "assumptions": ["after all operation goroutines returned nobody calls CeaseVigil again"],
+    },
 }
